@@ -11,7 +11,7 @@ from .. import netgen as ng
 from .. import pitutil as pu
 from .. import refcost
 from .. import snutil as su
-from ..core import Check, Part, Result, must
+from ..core import Check, Part, Result, must, safe_grad
 
 PIT_1D = ['params', 'params_no_bias', 'ops', 'ops_no_bias']
 PIT_2D = PIT_1D + ['gap8_latency', 'gap8_latency']
@@ -55,7 +55,7 @@ def grads_to_net_params(res, cost, model, nas_ids):
            n.rsplit('.', 1)[-1] in ('weight', 'bias')]
     if not net or not cost.requires_grad:
         return
-    gs = torch.autograd.grad(cost, [p for _, p in net], allow_unused=True, retain_graph=True)
+    gs = safe_grad(res, 'cost-gradient', cost, [p for _, p in net])
     for (n, _), g in zip(net, gs):
         if g is not None and float(g.abs().max()) != 0:
             res.bad('cost-gradient-reaches-network-weights', param=n)
@@ -166,8 +166,7 @@ def oracle_pit(case) -> Result:
                         trainable_masks=len(trainable))
                 return res
             if trainable and c.requires_grad:
-                gs = torch.autograd.grad(c, [p for _, p in trainable], allow_unused=True,
-                                         retain_graph=True)
+                gs = safe_grad(res, 'cost-gradient', c, [p for _, p in trainable])
                 for (pn, _), g in zip(trainable, gs):
                     if g is not None and not bool(torch.isfinite(g).all()):
                         res.bad('cost-gradient-not-finite', metric=name, discrete=disc, param=pn)
@@ -290,7 +289,7 @@ def oracle_sn(case) -> Result:
         if not c.requires_grad:
             res.bad('cost-has-no-gradient-path-to-selection-coefficients', metric=name)
             return res
-        gs = torch.autograd.grad(c, [a for _, a in alphas], allow_unused=True, retain_graph=True)
+        gs = safe_grad(res, 'cost-gradient', c, [a for _, a in alphas])
         for (nid, a), g in zip(alphas, gs):
             if g is not None and not bool(torch.isfinite(g).all()):
                 res.bad('cost-gradient-not-finite', metric=name, block=nid)
@@ -404,8 +403,7 @@ def oracle_mps(case) -> Result:
                 wq.setdefault(id(q), (qn, q))
         alphas = [(qn, q.alpha) for qn, q in wq.values()]
         if alphas and c.requires_grad:
-            gs = torch.autograd.grad(c, [a for _, a in alphas], allow_unused=True,
-                                     retain_graph=True)
+            gs = safe_grad(res, 'cost-gradient', c, [a for _, a in alphas])
             for (qn, a), g in zip(alphas, gs):
                 if g is not None and not bool(torch.isfinite(g).all()):
                     res.bad('cost-gradient-not-finite', metric=name, selector=qn)
@@ -447,8 +445,7 @@ def oracle_mps(case) -> Result:
             if not _finite_nonneg(res, 'mps', ch, metric=name, sampling='hard', **ctx):
                 return res
             if alphas and ch.requires_grad:
-                gh = torch.autograd.grad(ch, [a for _, a in alphas], allow_unused=True,
-                                         retain_graph=True)
+                gh = safe_grad(res, 'cost-gradient', ch, [a for _, a in alphas])
                 for (qn, a), g in zip(alphas, gh):
                     if g is not None and not bool(torch.isfinite(g).all()):
                         res.bad('cost-gradient-not-finite', metric=name, selector=qn,
@@ -519,7 +516,7 @@ def oracle_odimo(case) -> Result:
     nas_ids = {id(p) for p in od.nas_parameters()}
     alphas = [q.alpha for qn, q in mu.quantizers(od).items() if qn.endswith('w_mps_quantizer')]
     if c.requires_grad and alphas:
-        gs = torch.autograd.grad(c, alphas, allow_unused=True, retain_graph=True)
+        gs = safe_grad(res, 'cost-gradient', c, alphas)
         for g in gs:
             if g is not None and not bool(torch.isfinite(g).all()):
                 res.bad('cost-gradient-not-finite', where='odimo')
